@@ -19,7 +19,7 @@ from ..effects import Unknown, ceval
 from ..model import AnalysisError, ClassInfo, FuncInfo, dotted, norm_stmt, unparse, walk_no_nested
 from ..totality import bad_arguments, missing_attributes
 from .c11 import dict_protocol
-from .common import QUICK, branch_nodes_of, calls_in, eq_covers_slots, kwarg, raise_dominated_by
+from .common import QUICK, argval, branch_nodes_of, calls_in, eq_covers_slots, kwarg, raise_dominated_by
 
 EXPLANATION = (
     "Static analysis of the configuration classes on /repo's current source. R1: attribute/keyword existence on every "
@@ -97,7 +97,7 @@ def rule_r2(prog, res) -> None:
                 continue
             n += 1
             res.touch(m)
-            arg = kwarg(call, "cosmology")
+            arg = argval(prog, m, call, "cosmology")
             if arg is None:
                 res.violation("C15.R2", m, call, "bin edges are (re)generated without passing the configuration's cosmology: comoving bins fall back to the default cosmology", key_extra=f"{m.name}-no-cosmology")
                 continue
@@ -128,7 +128,7 @@ def rule_r2(prog, res) -> None:
                 if d == -1:
                     continue
                 v = getattr(cfgm.nodes[d].ast, "value", None)
-                is_mod = isinstance(v, ast.Call) and isinstance(v.func, ast.Attribute) and v.func.attr in ("modify", "create", "from_dict") and kwarg(v, "cosmology") is not None
+                is_mod = isinstance(v, ast.Call) and isinstance(v.func, ast.Attribute) and v.func.attr in ("modify", "create", "from_dict") and argval(prog, md, v, "cosmology") is not None
                 if not is_mod:
                     res.violation(
                         "C15.R2",
@@ -145,12 +145,11 @@ def rule_r2(prog, res) -> None:
     for name in ("create", "from_dict", "modify"):
         m = binc.methods[name]
         res.touch(m)
-        fwd = [c for c in calls_in(m) if kwarg(c, "cosmology") is not None or any(dotted(c.func) == "RedshiftBinningFactory" for _ in [0])]
         good = False
         for c in calls_in(m):
             if (dotted(c.func) or "").endswith("RedshiftBinningFactory") and c.args and isinstance(c.args[0], ast.Name) and c.args[0].id == "cosmology":
                 good = True
-            k = kwarg(c, "cosmology")
+            k = argval(prog, m, c, "cosmology")
             if k is not None and isinstance(k, ast.Name) and k.id == "cosmology":
                 good = True
         if good:
